@@ -326,8 +326,8 @@ def run(case):
         if not violations:
             violations.append(hist.viol(cls, sig, msg))
 
-    with warnings.catch_warnings():
-        warnings.simplefilter('ignore')
+    with warnings.catch_warnings(record=True):
+        warnings.simplefilter('always')    # recorded, not printed; never 'ignore': dependencies inspect warnings
         # 1. plain
         ctxA = W.set_ctx(W.Ctx(faults=case['faults']))
         plain = W.build(desc)
